@@ -130,6 +130,11 @@ theorem lit (n : Nat) : (OfNat.ofNat n : Int) = ((OfNat.ofNat n : Nat) : Int) :=
 @[simp] theorem shr_lit (n : Nat) (k : Int) :
     shr (no_index (OfNat.ofNat n)) k = (((OfNat.ofNat n : Nat) >>> k.toNat : Nat) : Int) := rfl
 
+/-- a conditional between two casts is the cast of the conditional -/
+theorem natCast_ite (c : Prop) [Decidable c] (a b : Nat) :
+    (if c then (a : Int) else (b : Int)) = ((if c then a else b : Nat) : Int) := by
+  split <;> rfl
+
 @[simp] theorem toNat_lit (n : Nat) : Int.toNat (no_index (OfNat.ofNat n)) = OfNat.ofNat n := rfl
 
 /-- `~s & m` for non-negative `s`, `m`: the bits of `m` not in `s` -/
